@@ -12,6 +12,7 @@ func VH_C08_bound() {
 	m := &bMon{}
 	bConfig(m)
 	vAssume(m.c >= 1)
+	m.stop = vNondet[bool]("stop")
 	exec := func(ctx context.Context, item Result) (Result, error) {
 		k := bIndex(item)
 		vMonC(1, func() {
@@ -69,6 +70,7 @@ func VH_C08_usable() {
 	m := &bMon{}
 	bConfig(m)
 	vAssume(m.c >= 1 && m.n >= m.c)
+	m.stop = vNondet[bool]("stop") // the limit is usable in both error-handling modes
 	exec := func(ctx context.Context, item Result) (Result, error) {
 		k := bIndex(item)
 		vMonC(1, func() { m.inflight++ })
